@@ -264,7 +264,11 @@ def handleSend (j : Json) : Json :=
   let impl := jget j "impl"
   match toChunksO size content with
   | .ok chunks =>
-    let s0 := initState ids.length chunks
+    let M : CopyArgs := { dst := dst, size := len, mode := jint (jget j "mode"), uid := jint (jget j "uid"), gid := jint (jget j "gid") }
+    let msgs : List Msg := chunks.map fun ch => { md := M, chunk := ch }
+    -- the raw target list (duplicates included) as indices into the distinct targets: the model de-duplicates
+    let rawIdx : List Nat := (jstrs (jget j "ids")).map fun i => (ids.findIdx? (· == i)).getD 0
+    let s0 := initState ids.length rawIdx msgs
     let fuel := 20 * (s0.todo.length + ids.length + 2) + 4 * (len + 1) * ids.length + 100
     let s1 := run behs fuel s0
     let s2 := runRev behs fuel s0
@@ -293,7 +297,7 @@ def handleSend (j : Json) : Json :=
       -- correspondence: the model's final state (any schedule) predicts the same results and byte counts
       let modelResultsOk := (ids.zip s1.ts).all fun (i, t) =>
         let b := behOfJson (jget (jget j "behs") i)
-        t.results == [expectedErr b] && t.got == expectedGot b content &&
+        t.results == [expectedErr b] && t.got == expectedGot b content && t.args == some M &&
         (b.missing || jnat (jget (jget tg i) "got_len") == t.got.length)
       let agree := modelFinished && schedOk && modelResultsOk && resultsOk
       let cls := "send:" ++ (if len = 0 then "empty" else if chunks.length > 11 then "big" else "small") ++
